@@ -1,8 +1,9 @@
 #!/bin/bash
+# SWEEP_ONLY=C02 restricts the run to the seeds of one property
 # runs every stored seeded change in the seedbox against the quick check of its property; log: work/seedsweep.log
 cd /verif; bin/seedbox.sh sync > /dev/null
 : > work/seedsweep.log
-for d in /verif/seeded/C*/; do
+for d in /verif/seeded/${SWEEP_ONLY:-C}*/; do
   n=$(basename $d); prop=${n%%-*}
   patch=$d/patch.diff
   [ -f $d/patch-rebased-on-11d8424a.diff ] && patch=$d/patch-rebased-on-11d8424a.diff
